@@ -14,7 +14,9 @@ From SpyneV Require Export C10.Leaf.
 Inductive ty :=
 | TLeaf (k : lkind)
 | TRef (c : nat)          (* a ComplexModel class of the application *)
-| TArr (elt : ty).        (* Array(elt): a wrapper class whose handler is array_from_element *)
+| TAttr (k : lkind)             (* an XmlAttribute(T) class standing for a child ELEMENT *)
+| TArr (aid : nat) (elt : ty).   (* Array(elt): a wrapper class whose handler is array_from_element;
+                                   aid identifies the class object (two Array(T) calls make two classes) *)
 Inductive fkind := KElem | KAttr.        (* ordinary member | XmlAttribute(T) *)
 (** one entry of _type_info; f_min / f_max / f_nillable are the Attributes of the member class *)
 Record field := mkfield {
@@ -23,7 +25,9 @@ Record cls := mkcls { c_name : text; c_nillable : bool; c_fields : list field }.
 Record app := mkapp {
   a_tns : text;
   a_classes : list cls;
-  a_registry : list (text * ty);      (* interface.classes: '{ns}TypeName' -> class *)
+  a_registry : list (text * option (ty * bool));
+                                      (* interface.classes: '{ns}TypeName' -> class and its Attributes.nillable;
+                                         None: a class that is a subclass of nothing in the universe *)
   a_methods : list (text * nat)       (* interface.service_method_map: '{tns}name' -> in_message class *)
 }.
 
@@ -175,9 +179,32 @@ Section XmlDeser.
   Definition node_nsmap (n : xnode) : list (option text * text) :=
     match n with XE _ m _ _ _ => m | XO _ _ => [] end.
 
+  (** issubclass(newclass, cls.__orig__ or cls) within the universe: the same class, the
+      registered base of a customised primitive, or Date for DateTime *)
+  Definition kind_sub (k' k : lkind) : bool :=
+    match k', k with
+    | LInt _, LInt _ | LText, LText | LBool, LBool | LDateTime, LDateTime | LDate, LDate
+    | LTime, LTime | LDur, LDur | LBytes, LBytes | LDate, LDateTime => true
+    | LEnum a, LEnum b => (fix eq (x y : list text) : bool :=
+                             match x, y with
+                             | [], [] => true
+                             | u :: x', v :: y' => text_eqb u v && eq x' y'
+                             | _, _ => false
+                             end) a b
+    | _, _ => false
+    end.
+  Definition ty_sub (t' t : ty) : bool :=
+    match t', t with
+    | TLeaf k', TLeaf k => kind_sub k' k
+    | TRef c', TRef c => Nat.eqb c' c
+    | TArr a' _, TArr a _ => Nat.eqb a' a
+    | TAttr k', TAttr k => kind_sub k' k && kind_sub k k'
+    | _, _ => false
+    end.
+
   (** the head of from_element: xsi:nil, then xsi:type; returns None when the element is nil,
-      else the class to deserialise *)
-  Definition resolve_class (t : ty) (nillable : bool) (n : xnode) : res (option ty) :=
+      else the class to deserialise and its Attributes.nillable *)
+  Definition resolve_class (t : ty) (nillable : bool) (n : xnode) : res (option (ty * bool)) :=
     let at_ := node_attrs n in
     let nil := match assoc t_xsi_nil at_ with
                | Some v => text_eqb v t_true || text_eqb v t_one | None => false end in
@@ -185,7 +212,7 @@ Section XmlDeser.
       if soft && negb nillable then raise_nth 0 xml_from_element_raises else Ret None
     else
       match assoc t_xsi_type at_ with
-      | None => Ret (Some t)
+      | None => Ret (Some (t, nillable))
       | Some v =>
           let '(p, objtype) := match split_colon v with Some (a, b) => (Some a, b) | None => (None, v) end in
           match nsmap_get p (node_nsmap n) with
@@ -193,7 +220,9 @@ Section XmlDeser.
           | Some ns =>
               match assoc (qname ns objtype) (a_registry A) with
               | None => guard_raise g_xml_xsi_type_unknown true (Raise EKeyError []) (Ret None)
-              | Some t' => Ret (Some t')
+              | Some None => raise_nth 3 xml_from_element_raises
+              | Some (Some (t', nil')) =>
+                  if ty_sub t' t then Ret (Some (t', nil')) else raise_nth 3 xml_from_element_raises
               end
           end
       end.
@@ -206,8 +235,22 @@ Section XmlDeser.
     let! ot := resolve_class t nillable n in
     match ot with
     | None => Ret tt
-    | Some (TLeaf k) => leaf_from_element k nillable (node_text n)
-    | Some (TArr elt) =>
+    | Some (TLeaf k, nil') => leaf_from_element k nil' (node_text n)
+    | Some (TAttr k, nil') =>
+        (* base_from_element on the XmlAttribute class: ModelBase validation, and
+           from_unicode -> xmlattribute_from_bytes -> from_bytes(cls.type, text) *)
+        let txt := node_text n in
+        if soft && negb (nil' || match txt with Some _ => true | None => false end)
+        then raise_nth 0 xml_base_from_element_raises
+        else
+          let! v := match txt with
+                    | None => Ret None
+                    | Some s => match read_leaf soap g_inbase_enum_member k s with
+                                | Ret v => Ret (Some v) | Raise e c => Raise e c end
+                    end in
+          if soft && negb (nil' || match v with Some _ => true | None => false end)
+          then raise_nth 1 xml_base_from_element_raises else Ret tt
+    | Some (TArr _ elt, _) =>
         (* array_from_element: every child node, whatever its tag *)
         match n with
         | XO _ _ => Ret tt
@@ -218,7 +261,7 @@ Section XmlDeser.
                | k :: r => let! _ := from_element k elt true in go r
                end) kids
         end
-    | Some (TRef c) =>
+    | Some (TRef c, _) =>
         match class_fields c with
         | None => Raise EKeyError []                     (* outside the universe *)
         | Some fs =>
@@ -242,7 +285,9 @@ Section XmlDeser.
                              match find_field key fs with
                              | None => let! names := go r in Ret (key :: names)
                              | Some f =>
-                                 let! _ := from_element k (f_ty f) (f_nillable f) in
+                                 let t := match f_kind f, f_ty f with
+                                          | KAttr, TLeaf lk => TAttr lk | _, t => t end in
+                                 let! _ := from_element k t (f_nillable f) in
                                  let! _ := child_attrs fs cattrs in
                                  let! names := go r in Ret (key :: names)
                              end
